@@ -483,8 +483,40 @@ fn judge(rep: &mut Report, storekind: &str, ops: &[ROp], base: &[String], got: &
     true
 }
 
+/// the first reader that serialises the store writes out the text file of a resource that was added after the last save
+/// (documented); whatever the name of that file is, the other reader sees what it sees alone. A fresh store per schedule:
+/// writing the file out clears the changed flag
+fn late_resource_job(rep: &mut Report, rng: &mut Rng, dir: &str, ops: &[ROp], samples: usize) {
+    let kind = "standoff-late-resource";
+    for name in ["notes.md", "README", "notes.txt"] {
+        let fresh = || -> AnnotationStore {
+            let mut s = build_store_full(dir, true, false, false, true);
+            s.add_resource(TextResourceBuilder::new().with_id("notes").with_text("late text, n\u{f6}ch nicht geschrieben").with_filename(&format!("{}/{}", dir, name))).expect("late resource");
+            s
+        };
+        let built = guard(|| ops.iter().map(|o| run_op(&fresh(), *o)).collect::<Vec<String>>());
+        let base = match built {
+            Ok(b) => b,
+            Err(pn) => {
+                rep.violation(format!("C20/{}/store-cannot-be-set-up/{}", kind, normalise_msg(&pn.msg.chars().take(60).collect::<String>())), json!({"store": kind, "file": name, "panic": pn.msg, "at": pn.loc}));
+                return;
+            }
+        };
+        for _ in 0..samples {
+            let Ok(store) = guard(|| fresh()) else { return };
+            let (got, _, chosen, trace) = run_schedule(&store, ops, &[], Some(&mut *rng));
+            rep.distinct(&format!("{}/{}/{:?}/{:?}", kind, name, ops, trace));
+            rep.count(&format!("schedules/{}/{}+{}", kind, opname(ops[0]), opname(ops[1])));
+            if !judge(rep, kind, ops, &base, &got, json!({"file": name, "choices": chosen, "trace": trace.iter().map(|(t, s)| format!("T{}:{}", t, s)).collect::<Vec<_>>()})) {
+                break;
+            }
+        }
+        MODE.store(0, Ordering::SeqCst);
+    }
+}
+
 pub fn run(p: &Params, rep: &mut Report) {
-    rep.rule = "stores with inline members and with stand-off (@include) resources and datasets (written to the work directory and reloaded; unchanged, changed by one more annotation, with a STAM JSON resource, and loaded with use_include switched off); reader operations: store.to_json_string, ToJson::to_json_string on a resource and on a dataset, ToJson::to_json_file on a resource (scratch file), ToCsv::to_csv_string on a dataset and on the store, TextResource::to_txt_file, TextResource::to_json_string, AnnotationDataSet::to_json_string / to_json_value, a SELECT query, QueryResultItem::to_json_string, related_text, the .parallel() adaptors. (i) controlled schedules: each reader parks at every yield point (serialisation-mode reads and writes, changed-flag reads and writes); for every pair of operations interleavings are enumerated depth-first up to a budget and then sampled with a seeded generator; triples are sampled; (ii) stress: 4-12 free-running threads with the hook injecting yield_now and microsecond sleeps. Every result is compared with the result of the same call running alone before and after, and the hooked dump must be unchanged; (iii) changed stand-off stores: the files a reader leaves behind must not depend on the reader that ran before it. distinct_nontrivial = distinct (store kind, operation tuple, interleaving trace) executed".into();
+    rep.rule = "stores with inline members and with stand-off (@include) resources and datasets (written to the work directory and reloaded; unchanged, changed by one more annotation, with a STAM JSON resource, and loaded with use_include switched off); reader operations: store.to_json_string, ToJson::to_json_string on a resource and on a dataset, ToJson::to_json_file on a resource (scratch file), ToCsv::to_csv_string on a dataset and on the store, TextResource::to_txt_file, TextResource::to_json_string, AnnotationDataSet::to_json_string / to_json_value, a SELECT query, QueryResultItem::to_json_string, related_text, the .parallel() adaptors. (i) controlled schedules: each reader parks at every yield point (serialisation-mode reads and writes, changed-flag reads and writes); for every pair of operations interleavings are enumerated depth-first up to a budget and then sampled with a seeded generator; triples are sampled; (ii) stress: 4-12 free-running threads with the hook injecting yield_now and microsecond sleeps. Every result is compared with the result of the same call running alone before and after, and the hooked dump must be unchanged; (iii) changed stand-off stores: the files a reader leaves behind must not depend on the reader that ran before it; (iv) a stand-off store with a plain-text resource added after the last save (file names notes.md, README, notes.txt; a fresh store per schedule): store.to_json_string, which writes that file out, paired with every reader. distinct_nontrivial = distinct (store kind, operation tuple, interleaving trace) executed".into();
     rep.assumptions = vec!["yield points sit before every read or write of Config.serialize_mode and the changed flags (feature verif); other code between them is treated as atomic by the controlled schedules and exercised by the stress runs".into()];
     if let Some(v) = p.variant.as_deref() {
         if v == "miri" || v == "tsan" {
@@ -505,6 +537,12 @@ pub fn run(p: &Params, rep: &mut Report) {
             }
         }
     }
+    // (iv) a stand-off store to which a stand-off plain-text resource was added afterwards (still to be written out): pairs with the
+    // reader that writes it out
+    let late_kind = storekinds.len();
+    for j in 0..ALL_OPS.len() {
+        jobs.push((late_kind, vec![ROp::StoreJson, ALL_OPS[j]]));
+    }
     let mut rng = Rng::new(p.seed, "c20", p.shard as u64);
     for (ji, (sk, ops)) in jobs.iter().enumerate() {
         if ji % p.nshards != p.shard {
@@ -517,8 +555,13 @@ pub fn run(p: &Params, rep: &mut Report) {
         }
         rep.cases += 1;
         rep.current_case = json!({"index": ji, "seed": p.seed, "tier": if p.thorough { "thorough" } else { "quick" }});
-        let (kind, standoff, changed) = storekinds[*sk];
         let dir = format!("{}/c20-{}-{}", p.workdir, p.shard, ji);
+        if *sk == late_kind {
+            late_resource_job(rep, &mut rng, &dir, ops, if p.thorough { 60 } else { 12 });
+            let _ = std::fs::remove_dir_all(&dir);
+            continue;
+        }
+        let (kind, standoff, changed) = storekinds[*sk];
         USE_INCLUDE_OFF.with(|f| f.set(kind == "standoff-use-include-off"));
         FILE_URLS.with(|f| f.set(kind == "standoff-file-urls-changed"));
         // building these stores is a fixed sequence of valid calls (annotate, set_filename, to_file, from_file): it always succeeds on
